@@ -1,6 +1,7 @@
 package rules
 
 import (
+	"sort"
 	"go/token"
 	"go/types"
 	"strings"
@@ -40,6 +41,14 @@ func c15(c *core.Ctx, r *core.Report) {
 	pcf := c.MustFn(fpkg, "ParseConfigFile")
 
 	var totalPhi *ssa.Phi
+	pcfEntry := pcf
+	// the planning loop may live in a helper of ParseConfigFile: R1 looks at the function holding the append of
+	// runnable stages (by role), R4 resolves what ParseConfigFile returns through that helper
+	for _, e := range an.FlatCalls(pcfEntry, flatDepth, func(call ssa.CallInstruction, _ *ssa.Function) bool {
+		return an.IsBuiltinCall(call, "append") && strings.Contains(call.Common().Args[0].Type().String(), "runnableStage")
+	}) {
+		pcf = e.Instr.Parent()
+	}
 	rule(r, "C15.R1", "skip rule shape in ParseConfigFile", func() {
 		// the After test (possibly inside a helper predicate)
 		isTimeMethod := func(t *ssa.Function, name string) bool {
@@ -107,7 +116,17 @@ func c15(c *core.Ctx, r *core.Report) {
 			term = cum.X
 		}
 		td := an.D().Of(term)
-		r.Check(strings.Contains(td, "validateCommonFieldsOfStage(") && strings.HasSuffix(td, "#0.Duration"), "ParseConfigFile#increment", an.Pos(c, cum), "increment is this stage's validated Duration", "the accumulator is increased by "+td+", not by the stage's own duration")
+		// this stage's own (validated) duration: the Duration field of a Stage value obtained, in this pass of the loop,
+		// from the loop's element (the element itself or the result of a call made on it)
+		incFld, incOwner := an.TerminalField(term)
+		okInc := incFld != nil && incFld.Name() == "Duration" && an.IsNamed(incOwner, filePkg, "Stage")
+		if okInc {
+			if in, isIn := an.Strip(term).(ssa.Instruction); isIn {
+				loop, _ := an.NaturalLoopOf(cum.Block())
+				okInc = loop != nil && loop[in.Block()]
+			}
+		}
+		r.Check(okInc, "ParseConfigFile#increment", an.Pos(c, cum), "increment is this stage's validated Duration", "the accumulator is increased by "+td+", not by the stage's own duration")
 		// unconditional: every loop-carried edge of the accumulator is the incremented value
 		uncond := true
 		init := false
@@ -189,7 +208,7 @@ func c15(c *core.Ctx, r *core.Report) {
 								set(&t.n, l.Val == (bo.Op == token.EQL))
 								continue
 							}
-							if strings.Contains(xd, "parseStage(") || strings.Contains(xd, "validateCommonFieldsOfStage(") {
+							if ex, isEx := an.Strip(x).(*ssa.Extract); isEx && types.Identical(ex.Type(), types.Universe.Lookup("error").Type()) {
 								continue // error checks of this iteration's own calls
 							}
 						}
@@ -307,16 +326,36 @@ func c15(c *core.Ctx, r *core.Report) {
 			})
 		}
 		r.Floor("default-inheritance assignments", n, 16)
-		for _, v := range []string{"validateConstantStage", "validateRampStage", "validateStagedStage", "validateGaussianStage"} {
-			for _, f := range []string{"Distribution", "Jitter", "Parameters"} {
-				r.Check(perFn[v][f], v+"#inherits-"+f, "-", v+" inherits "+f+" from the defaults", v+" does not inherit "+f+" from the default section, unlike its sibling validators")
+		// siblings agree: every validator that inherits one of the rate-mode options inherits all of them; the users
+		// validator (the one inheriting Concurrency into a stage) inherits Parameters; some validator inherits the
+		// options common to all stages
+		modeValidators := 0
+		var names []string
+		for name := range perFn {
+			names = append(names, name)
+		}
+		sort.Strings(names)
+		for _, name := range names {
+			got := perFn[name]
+			if got["Distribution"] || got["Jitter"] {
+				modeValidators++
+				for _, f := range []string{"Distribution", "Jitter", "Parameters"} {
+					r.Check(got[f], name+"#inherits-"+f, "-", name+" inherits "+f+" from the defaults", name+" does not inherit "+f+" from the default section, unlike its sibling validators")
+				}
+			}
+			if got["Concurrency"] && name != "validateCommonFields" && !got["Duration"] {
+				r.Check(got["Parameters"], name+"#inherits-Parameters", "-", "users stages inherit Parameters", name+" does not inherit Parameters")
 			}
 		}
-		for _, f := range []string{"Concurrency", "Parameters"} {
-			r.Check(perFn["validateUsersStage"][f], "validateUsersStage#inherits-"+f, "-", "users stages inherit "+f, "validateUsersStage does not inherit "+f)
+		r.Floor("rate-mode validators", modeValidators, 4)
+		common := map[string]bool{}
+		for _, got := range perFn {
+			for f := range got {
+				common[f] = true
+			}
 		}
-		for _, f := range []string{"Duration", "Mode"} {
-			r.Check(perFn["validateCommonFieldsOfStage"][f], "validateCommonFieldsOfStage#inherits-"+f, "-", "every stage inherits "+f, "stages do not inherit "+f+" from the default section")
+		for _, f := range []string{"Duration", "Mode", "Concurrency"} {
+			r.Check(common[f], "defaults#inherits-"+f, "-", "stages inherit "+f, "no validator inherits "+f+" from the default section")
 		}
 	})
 
@@ -399,7 +438,7 @@ func c15(c *core.Ctx, r *core.Report) {
 	})
 
 	rule(r, "C15.R4", "limits map one-to-one: Limits.X → RunnableStages.X → api.Options.X (same name), Scenario → Scenario, the plan's total duration is the loop accumulator and becomes Trigger.Duration", func() {
-		for _, ret := range an.Returns(pcf) {
+		for _, ret := range an.Returns(pcfEntry) {
 			if !isNilConst(ret.Results[1]) {
 				continue
 			}
@@ -414,9 +453,10 @@ func c15(c *core.Ctx, r *core.Report) {
 				key := "RunnableStages." + f
 				switch f {
 				case "Stages":
-					r.Check(strings.HasPrefix(d, "phi(") || strings.Contains(d, "append("), key, an.Pos(c, ret), "the kept stages", "Stages is "+shortPath(d))
+					rd := an.D().Of(an.RootFV(pcfEntry, v).Resolve(nil).V)
+					r.Check(strings.HasPrefix(rd, "phi(") || strings.Contains(rd, "append("), key, an.Pos(c, ret), "the kept stages", "Stages is "+shortPath(d))
 				case "stagesTotalDuration":
-					r.Check(totalPhi != nil && v == ssa.Value(totalPhi), key, an.Pos(c, ret), "total duration is the accumulator over all stages", "the total duration reported is "+shortPath(d)+", not the sum over all stages of the file")
+					r.Check(totalPhi != nil && an.RootFV(pcfEntry, v).Resolve(nil).V == ssa.Value(totalPhi), key, an.Pos(c, ret), "total duration is the accumulator over all stages", "the total duration reported is "+shortPath(d)+", not the sum over all stages of the file")
 				case "Scenario":
 					r.Check(strings.HasSuffix(d, "#0.Scenario"), key, an.Pos(c, ret), "← "+shortPath(d), "Scenario is fed from "+shortPath(d))
 				default:
@@ -540,39 +580,57 @@ func c15(c *core.Ctx, r *core.Report) {
 			}
 			r.Check(waited, "runStage#joins-stage", an.Pos(c, ret), "this return is reached only after stageDone", "runStage can return while its stage goroutine is still triggering: the next stage overlaps it")
 		}
-		// env pairing
-		var set, unset ssa.CallInstruction
-		var unsets []ssa.CallInstruction
-		for _, call := range an.AllCalls(rs) {
-			if t := an.Callee(call); t != nil && t.Name() == "setEnvs" {
-				set = call
-			}
-			if t := an.Callee(call); t != nil && t.Name() == "unsetEnvs" {
-				unset = call
-				unsets = append(unsets, call)
-			}
+		// env pairing, seen through helpers and deferred literals: the os.Setenv / os.Unsetenv calls reached from runStage
+		osCalls := func(name string) []an.Event {
+			return an.FlatCalls(rs, flatDepth, func(_ ssa.CallInstruction, t *ssa.Function) bool { return an.IsFunc(t, "os", name) })
 		}
-		if set == nil || unset == nil {
+		sets, unsetEvs := osCalls("Setenv"), osCalls("Unsetenv")
+		if len(sets) == 0 || len(unsetEvs) == 0 {
 			r.Violation("runStage#env", c.Pos(rs.Pos()), "stage parameters are not both set and unset in runStage")
 			return
 		}
-		sm, um := an.D().Of(set.Common().Args[0]), an.D().Of(unset.Common().Args[0])
-		r.Check(sm == um && strings.HasSuffix(sm, ".Params"), "runStage#same-map", an.Pos(c, unset), "set and unset use the stage's own parameter map "+sm, "parameters set from "+sm+" but unset from "+um+": variables remain in the environment after the run")
+		// each walks a map: key (and value) are the range's own key (and value); the map, seen from runStage
+		walked := func(e an.Event, withValue bool) (an.FV, bool) {
+			args := e.Call().Common().Args
+			key, ok := an.Strip(args[0]).(*ssa.Extract)
+			if !ok || key.Index != 1 {
+				return an.FV{}, false
+			}
+			nx, ok := key.Tuple.(*ssa.Next)
+			if !ok {
+				return an.FV{}, false
+			}
+			if withValue {
+				val, ok := an.Strip(args[1]).(*ssa.Extract)
+				if !ok || val.Index != 2 || val.Tuple != key.Tuple {
+					return an.FV{}, false
+				}
+			}
+			rg, ok := nx.Iter.(*ssa.Range)
+			if !ok {
+				return an.FV{}, false
+			}
+			return an.EventFV(e, rg.X).Resolve(nil), true
+		}
+		setMap, okS := walked(sets[0], true)
+		unsetMap, okU := walked(unsetEvs[0], false)
+		r.Check(okS, "setEnvs#walk", an.Pos(c, sets[0].Instr), "os.Setenv is applied to every key and value of a map", "os.Setenv is not applied to the keys and values of the map walked")
+		r.Check(okU, "unsetEnvs#walk", an.Pos(c, unsetEvs[0].Instr), "os.Unsetenv is applied to every key of a map", "os.Unsetenv is not applied to the keys of the map walked")
+		if !okS || !okU {
+			return
+		}
+		sameMap := sameHandle(setMap, unsetMap)
+		fld, _ := an.TerminalField(setMap.V)
+		r.Check(sameMap && fld != nil && fld.Name() == "Params", "runStage#same-map", an.Pos(c, unsetEvs[0].Instr), "set and unset use the stage's own parameter map "+an.D().Of(setMap.V), "parameters set from "+an.D().Of(setMap.V)+" but unset from "+an.D().Of(unsetMap.V)+": variables remain in the environment after the run")
+		set, unset := sets[0].Root(), unsetEvs[0].Root()
 		for _, g := range an.GoSites(rs) {
-			r.Check(an.Dominates(set, g), "runStage#set-before-stage", an.Pos(c, g), "parameters are in the environment before the stage goroutine starts", "the stage goroutine starts before its parameters are set")
+			r.Check(an.Dominates(set, g) || (an.InLoop(set) && set.Block().Dominates(g.Block()) == false && an.ReachableFrom(set, g) && !an.ReachableFrom(g, set)), "runStage#set-before-stage", an.Pos(c, g), "parameters are in the environment before the stage goroutine starts", "the stage goroutine starts before its parameters are set")
 		}
 		released := true
 		if _, isDefer := unset.(*ssa.Defer); isDefer {
-			released = dominatesAllReturns(unset, rs) && an.Dominates(set, unset) || an.Dominates(unset, set) && dominatesAllReturns(unset, rs)
+			released = dominatesAllReturns(unset, rs)
 		} else {
-			esc := an.EscapesWithout(set, func(in ssa.Instruction) bool {
-				for _, u := range unsets {
-					if in == ssa.Instruction(u) {
-						return true
-					}
-				}
-				return false
-			})
+			esc := an.EscapesWithout(set, func(in ssa.Instruction) bool { return in == unset })
 			released = esc == nil
 			if esc != nil {
 				r.Violation("runStage#unset-on-every-exit", an.Pos(c, esc), "this return is reachable after setEnvs without unsetEnvs: when the run is cancelled mid-stage the stage's parameters stay in the environment")
@@ -582,21 +640,6 @@ func c15(c *core.Ctx, r *core.Report) {
 			r.OK("runStage#unset-on-every-exit", an.Pos(c, unset), "unsetEnvs runs on every exit after setEnvs")
 		} else if _, isDefer := unset.(*ssa.Defer); isDefer {
 			r.Violation("runStage#unset-on-every-exit", an.Pos(c, unset), "the deferred unsetEnvs does not cover every return")
-		}
-		// both walk their parameter map
-		for name, osFn := range map[string]string{"setEnvs": "Setenv", "unsetEnvs": "Unsetenv"} {
-			fn := c.MustFn(fpkg, name)
-			ok := false
-			for _, call := range an.AllCalls(fn) {
-				if an.IsFunc(an.Callee(call), "os", osFn) {
-					d := an.D().Of(call.Common().Args[0])
-					ok = d == "next(range($envs))#1"
-					if name == "setEnvs" {
-						ok = ok && an.D().Of(call.Common().Args[1]) == "next(range($envs))#2"
-					}
-				}
-			}
-			r.Check(ok, name+"#walk", c.Pos(fn.Pos()), name+" applies os."+osFn+" to every key of its map", name+" does not apply os."+osFn+" to the keys (and values) of the map it is given")
 		}
 	})
 }
